@@ -1288,6 +1288,11 @@ class PathModel2(Model):
                 z3.And(z3.Not(ISABS(PPREFIX(a, k_))),
                        z3.Implies(HASDD(PPREFIX(a, k_)), HASDD(a)))),
                 patterns=[PPREFIX(a, k_)]),
+            # a prefix of a join that ends inside the left operand
+            z3.ForAll([a, b, k_], z3.Implies(
+                z3.And(z3.Not(ISABS(b)), 0 <= k_, k_ <= NPARTS(a)),
+                PPREFIX(PJOIN(a, b), k_) == PPREFIX(a, k_)),
+                patterns=[PPREFIX(PJOIN(a, b), k_)]),
             # one more component: prefix(k + 1) = prefix(k) / part(k)
             z3.ForAll([a, k_], z3.Implies(
                 z3.And(0 <= k_, k_ < NPARTS(a), z3.Not(ISABS(a))),
@@ -1386,7 +1391,15 @@ class PathModel2(Model):
     def getitem(self, st, obj, idx, line):
         if isinstance(obj, VU) and getattr(obj, "parts_of", None) is not None \
                 and isinstance(idx, VInt):
-            return VU(PART(obj.parts_of, idx.t))
+            v = VU(PART(obj.parts_of, idx.t))
+            v.is_part = True
+            return v
+        return None
+
+    def str_of(self, st, v, line):
+        # a component of p.parts is a str already
+        if isinstance(v, VU) and getattr(v, "is_part", False):
+            return v
         return None
 
     def slice(self, st, obj, lo, hi, line):
@@ -1663,6 +1676,13 @@ class DictCompModel(Model):
         return d
 
     def call_global(self, st, name, node):
+        if name == "defaultdict" and self.eng.imports.get(
+                "defaultdict", "") == "collections.defaultdict" and \
+                len(node.args) == 1 and isinstance(node.args[0], ast.Name) \
+                and node.args[0].id == "list" and not node.keywords:
+            d = VDict(z3.K(U, z3.BoolVal(False)), None, None)
+            d.default_list = True
+            return d
         if name == "set" and len(node.args) == 1:
             v = self.eng.eval(st, node.args[0])
             if isinstance(v, VDict):
